@@ -1436,3 +1436,48 @@ add('C03', 'twin', 'indent-alias', [(P, '''def bracket(ctx, left, child, right):
     return concat([
         left,
         nest(step, concat([SOFTLINE, child])),''')])
+
+# ----------------------------------------------------------------------------- added wiring rules
+add('C02', 'breaker', 'highlight-drops-escapes', [(P, '''        if not part:
+            continue
+
+        docs.append(''', '''        if not part or (is_escaped and len(part) > 4):
+            continue
+
+        docs.append(''')], 'C02.h')
+add('C02', 'breaker', 'escape-pattern-noncapturing', [(P, "    r'''((?:\\\\[\\\\abfnrtv\"'])|'''", "    r'''(?:(?:\\\\[\\\\abfnrtv\"'])|'''")], 'C02.h')
+add(('C02', 'C09'), 'breaker', 'intersperse-drops-last', [(U, '''    for y in it:
+        yield x
+        yield y''', '''    prev = None
+    for y in it:
+        if prev is not None:
+            yield x
+            yield prev
+        prev = y''')])
+add('C09', 'breaker', 'unwrap-swaps-comment-kinds', [(P, '''        if isinstance(value, _CommentedValue):
+            comment = value.comment
+            value = value.value''', '''        if isinstance(value, _CommentedValue):
+            trailing_comment = value.comment
+            value = value.value''')], 'C09.g')
+add('C09', 'breaker', 'comment-not-attached', [(P, '''    if comment:
+        return comment_doc(
+            doc,
+            comment
+        )
+    return doc''', '''    return doc''')], 'C09')
+add('C13', 'breaker', 'marker-without-id', [(P, '''    return '<Recursion on {} with id={}>'.format(
+        type(value).__name__,
+        id(value)
+    )''', '''    return '<Recursion on {}>'.format(
+        type(value).__name__
+    )''')], 'C13.f')
+add(('C04', 'C16'), 'breaker', 'rfind-returns-first', [(U, '''    for i, el in enumerate(reversed(seq)):
+        if predicate(el):
+            return length - i - 1''', '''    for i, el in enumerate(seq):
+        if predicate(el):
+            return i''')])
+add(('C05', 'C06'), 'breaker', 'smart-uses-fast-predicate', [(L, '''        fitting_predicate=smart_fitting_predicate,''', '''        fitting_predicate=fast_fitting_predicate,''')], 'C0')
+add('C07', 'breaker', 'enum-member-without-class', [(P, '''    return concat([
+        general_identifier(cls),
+        identifier('.{}'.format(attrname))
+    ])''', '''    return identifier('{}'.format(attrname))''')], 'C07')
